@@ -41,6 +41,7 @@ pub struct RProg {
     pub classes: Vec<Cls>,
     pub uses_word: bool,
     pub has_f1: bool,
+    pub has_f1_lazy: bool,
     pub has_lookbehind: bool,
     pub has_cond: bool,
     pub has_keepout: bool,
@@ -143,6 +144,7 @@ pub fn build(e: &Expr) -> RProg {
         classes: Vec::new(),
         uses_word: false,
         has_f1: false,
+        has_f1_lazy: false,
         has_lookbehind: false,
         has_cond: false,
         has_keepout: false,
@@ -151,6 +153,7 @@ pub fn build(e: &Expr) -> RProg {
     };
     let root = conv(e, &mut p);
     p.has_f1 = has_f1(&root);
+    p.has_f1_lazy = has_f1_lazy(&root);
     p.root = root;
     if p.uses_word {
         let w = hirmodel::word_class();
@@ -230,6 +233,29 @@ pub fn has_f1(r: &R) -> bool {
         R::Concat(v) | R::Alt(v) => v.iter().any(has_f1),
         R::Group(_, c) | R::Atomic(c) | R::Look(c, _) => has_f1(c),
         R::Cond { c, t, f } => has_f1(c) || has_f1(t) || has_f1(f),
+        _ => false,
+    }
+}
+
+/// F1 sub-class in which even the overall span is known to differ between the reference rule
+/// ("an optional iteration of an unbounded repeat must consume") and the engines (Perl-style
+/// "stop after an empty iteration"): an unbounded repeat whose nullable body contains a lazy
+/// repeat that can match empty, e.g. `(?:a*?)*`.
+pub fn has_f1_lazy(r: &R) -> bool {
+    fn lazy_nullable(r: &R) -> bool {
+        match r {
+            R::Repeat { child, lo, greedy, .. } => (!*greedy && (*lo == 0 || nullable(child))) || lazy_nullable(child),
+            R::Concat(v) | R::Alt(v) => v.iter().any(lazy_nullable),
+            R::Group(_, c) | R::Atomic(c) | R::Look(c, _) => lazy_nullable(c),
+            R::Cond { c, t, f } => lazy_nullable(c) || lazy_nullable(t) || lazy_nullable(f),
+            _ => false,
+        }
+    }
+    match r {
+        R::Repeat { child, hi, .. } => (*hi == usize::MAX && nullable(child) && lazy_nullable(child)) || has_f1_lazy(child),
+        R::Concat(v) | R::Alt(v) => v.iter().any(has_f1_lazy),
+        R::Group(_, c) | R::Atomic(c) | R::Look(c, _) => has_f1_lazy(c),
+        R::Cond { c, t, f } => has_f1_lazy(c) || has_f1_lazy(t) || has_f1_lazy(f),
         _ => false,
     }
 }
